@@ -77,7 +77,7 @@ func selWords(text string, names map[string]string) (ws []string, ok bool) {
 		case t.Token == parser.COMPARISON_OP || t.Token == parser.STRING_OP:
 			raw = append(raw, t.Literal)
 		case t.Token >= parser.SELECT && t.Token <= parser.JSON_OBJECT:
-			if !selKeywords[strings.ToUpper(t.Literal)] && !(qryMode && qryKeywords[strings.ToUpper(t.Literal)]) {
+			if !selKeywords[strings.ToUpper(t.Literal)] && !(qryMode && qryKeywords[strings.ToUpper(t.Literal)]) && !(nqMode && strings.ToUpper(t.Literal) == "EXISTS") {
 				return nil, false
 			}
 			raw = append(raw, strings.ToUpper(t.Literal))
@@ -130,7 +130,7 @@ func selWords(text string, names map[string]string) (ws []string, ok bool) {
 		return nil, false
 	}
 	for i, w := range ws {
-		if qryMode && qryKeywords[w] {
+		if qryMode && qryKeywords[w] || nqMode && w == "EXISTS" {
 			continue
 		}
 		if isIdentWord(strings.SplitN(w, ".", 2)[0]) {
